@@ -872,20 +872,75 @@ func checkObs(s spec, o *hsObs, serverKey crypto.PrivateKey) *obsResult {
 	}
 
 	// --- secrets and Finished (TLS <= 1.2)
+	// The master secret the connection actually used is established from the wire: a candidate from the key
+	// logs (this connection's line of the peer, of the client, then any other line - a resumed session reuses
+	// the secret logged under the original connection's client random) is "wire-verified" when the keys derived
+	// from it by the reference PRF open the first protected record (the Finished message) of a direction.
 	handshakeOK := o.CErr == nil && o.SErr == nil
 	var master []byte
 	masterSrc := ""
-	if !tls13 && cr != nil {
-		if handshakeOK {
-			master, masterSrc = keylogLookup(o.ServerKL, "CLIENT_RANDOM", cr), "peer"
+	var wireFin [2][]byte
+	wireVerified := false
+	if !tls13 && cr != nil && sd != nil && finalSH != nil {
+		type cand struct {
+			v   []byte
+			src string
 		}
-		if master == nil {
-			master, masterSrc = keylogLookup(o.ClientKL, "CLIENT_RANDOM", cr), "client"
+		var cands []cand
+		if v := keylogLookup(o.ServerKL, "CLIENT_RANDOM", cr); v != nil {
+			cands = append(cands, cand{v, "peer"})
 		}
-		if master == nil {
-			masterSrc = ""
+		if v := keylogLookup(o.ClientKL, "CLIENT_RANDOM", cr); v != nil {
+			cands = append(cands, cand{v, "client"})
+		}
+		for _, v := range keylogAll(o.ServerKL, "CLIENT_RANDOM") {
+			cands = append(cands, cand{v, "peer-other-connection"})
+		}
+		for _, v := range keylogAll(o.ClientKL, "CLIENT_RANDOM") {
+			cands = append(cands, cand{v, "client-other-connection"})
+		}
+		openFin := func(m []byte, d int) []byte {
+			if len(w.Enc[d]) == 0 || w.Enc[d][0].Typ != recHandshake {
+				return nil
+			}
+			kb := refKeyBlock(negVers, sd, m, cr, sr)
+			key, iv, mk := kb.cKey, kb.cIV, kb.cMac
+			if d == int(netx.BtoA) {
+				key, iv, mk = kb.sKey, kb.sIV, kb.sMac
+			}
+			pt, err := openRecord12(negVers, sd, key, iv, mk, 0, w.Enc[d][0])
+			if err != nil {
+				return nil
+			}
+			if len(pt) >= 4 && pt[0] == hsFinished && int(pt[1])<<16|int(pt[2])<<8|int(pt[3]) == len(pt)-4 {
+				return pt[4:]
+			}
+			return nil
+		}
+		for _, c := range cands {
+			f0, f1 := openFin(c.v, 0), openFin(c.v, 1)
+			if f0 != nil || f1 != nil {
+				master, masterSrc, wireVerified = c.v, c.src, true
+				wireFin[0], wireFin[1] = f0, f1
+				break
+			}
+		}
+		if !wireVerified && len(cands) > 0 {
+			master, masterSrc = cands[0].v, cands[0].src
+			if len(w.Enc[0]) > 0 || len(w.Enc[1]) > 0 {
+				k.count("finished_record_not_opened_by_any_keylog_secret")
+			}
+		}
+		if wireVerified {
+			k.count("master_wire_verified_from_" + masterSrc + "_keylog")
+			for d := 0; d < 2; d++ {
+				if wireFin[d] != nil {
+					k.count("finished_record_opened")
+				}
+			}
 		}
 	}
+	emsBoth := len(chs) > 0 && chs[len(chs)-1].EMS && finalSH != nil && finalSH.EMS
 	if km := o.Log.KeyMaterial; km != nil {
 		res.Sections = append(res.Sections, "key_material")
 		if ms := km.MasterSecret; ms != nil && (ms.Length != 0 || len(ms.Value) != 0) {
@@ -895,11 +950,18 @@ func checkObs(s spec, o *hsObs, serverKey crypto.PrivateKey) *obsResult {
 			}
 			peer := keylogLookup(o.ServerKL, "CLIENT_RANDOM", cr)
 			if peer == nil {
-				k.count("no_peer_keylog_line")
+				k.count("no_peer_keylog_line_for_this_connection")
 			} else if !bytes.Equal(ms.Value, peer) {
-				k.fail("mismatch:key_material.master_secret", "log %x, peer's key log %x", ms.Value, peer)
+				k.fail("mismatch:key_material.master_secret:peer-keylog", "log %x, peer's key log %x", ms.Value, peer)
 			} else {
 				k.count("master_secret_equals_peer_keylog")
+			}
+			if wireVerified {
+				if !bytes.Equal(ms.Value, master) {
+					k.fail("mismatch:key_material.master_secret:wire", "log %x; the secret that opens the Finished record on the wire is %x (%s key log)", ms.Value, master, masterSrc)
+				} else {
+					k.count("master_secret_equals_wire_verified_secret")
+				}
 			}
 		}
 		if ps := km.PreMasterSecret; ps != nil && (ps.Length != 0 || len(ps.Value) != 0) {
@@ -908,10 +970,28 @@ func checkObs(s spec, o *hsObs, serverKey crypto.PrivateKey) *obsResult {
 				k.fail("mismatch:key_material.pre_master_secret.length", "length field %d, value has %d bytes", ps.Length, len(ps.Value))
 			}
 			if master != nil && sd != nil && cr != nil && sr != nil {
-				emsBoth := len(chs) > 0 && chs[len(chs)-1].EMS && finalSH != nil && finalSH.EMS
-				if !emsBoth {
-					if m := refMaster(negVers, sd.SHA384, ps.Value, cr, sr); !bytes.Equal(m, master) {
-						k.fail("mismatch:key_material.pre_master_secret:"+kx, "PRF(pre-master from the log) = %x, master secret of the %s key log = %x", m, masterSrc, master)
+				var m []byte
+				if emsBoth {
+					// RFC 7627 4: session_hash covers the handshake up to and including the ClientKeyExchange
+					var pre [][]byte
+					seenCKX := false
+					for _, hm := range w.Msgs {
+						pre = append(pre, hm.Raw)
+						if hm.Dir == netx.AtoB && hm.Typ == hsClientKeyExchange {
+							seenCKX = true
+							break
+						}
+					}
+					if seenCKX {
+						m = refEMS(negVers, sd.SHA384, ps.Value, transcriptHash(negVers, sd.SHA384, pre))
+						k.count("extended_master_secret_derivations_checked")
+					}
+				} else {
+					m = refMaster(negVers, sd.SHA384, ps.Value, cr, sr)
+				}
+				if m != nil {
+					if !bytes.Equal(m, master) {
+						k.fail("mismatch:key_material.pre_master_secret:"+kx, "PRF(pre-master from the log) = %x, master secret (%s key log, wire-verified=%v) = %x", m, masterSrc, wireVerified, master)
 					} else {
 						k.count("pre_master_consistent_with_master")
 					}
@@ -986,29 +1066,6 @@ func checkObs(s spec, o *hsObs, serverKey crypto.PrivateKey) *obsResult {
 					}
 				}
 				refFin[second] = refFinished(negVers, sd.SHA384, master, second == int(netx.AtoB), all)
-			}
-		}
-		kb := refKeyBlock(negVers, sd, master, cr, sr)
-		var wireFin [2][]byte
-		for d := 0; d < 2; d++ {
-			if len(w.Enc[d]) == 0 || w.Enc[d][0].Typ != recHandshake {
-				continue
-			}
-			key, iv, mk := kb.cKey, kb.cIV, kb.cMac
-			if d == int(netx.BtoA) {
-				key, iv, mk = kb.sKey, kb.sIV, kb.sMac
-			}
-			pt, err := openRecord12(negVers, sd, key, iv, mk, 0, w.Enc[d][0])
-			if err != nil {
-				k.count("finished_record_not_opened")
-				res.Summary[fmt.Sprintf("finished_open_error_dir%d", d)] = err.Error()
-				continue
-			}
-			if len(pt) >= 4 && pt[0] == hsFinished && int(pt[1])<<16|int(pt[2])<<8|int(pt[3]) == len(pt)-4 {
-				wireFin[d] = pt[4:]
-				k.count("finished_record_opened")
-			} else {
-				k.count("finished_record_unexpected_content")
 			}
 		}
 		cmpFin := func(field string, l *ztls.Finished, d int) {
